@@ -17,7 +17,16 @@ import (
 // Rng is splitmix64; every random choice of a run derives from one seed.
 type Rng struct{ s uint64 }
 
-func NewRng(seed uint64) *Rng { return &Rng{s: seed*0x9E3779B97F4A7C15 + 0x1234567} }
+func NewRng(seed uint64) *Rng {
+	// hash the seed so that consecutive seeds give unrelated streams
+	z := seed + 0x6A09E667F3BCC909
+	z = (z ^ (z >> 30)) * 0xBF58476D1CE4E5B9
+	z = (z ^ (z >> 27)) * 0x94D049BB133111EB
+	z ^= z >> 31
+	r := &Rng{s: z}
+	r.U64()
+	return r
+}
 func (r *Rng) U64() uint64 {
 	r.s += 0x9E3779B97F4A7C15
 	z := r.s
